@@ -326,6 +326,14 @@ def h_comp(eng, p, e):
     if len(rs) != 1:
         raise Unsupported("forking comprehension source")
     q, coll = rs[0]
+    return comp_over(eng, q, e, coll)
+
+
+def comp_over(eng, q, e, coll):
+    """the comprehension `e` (one generator) over the already evaluated collection"""
+    g = e.generators[0]
+    if isinstance(coll, Custom) and hasattr(coll.h, "as_lseq"):
+        coll = Custom(coll.h.as_lseq(eng, q))
     if not (isinstance(coll, Custom) and isinstance(coll.h, LSeq)):
         return None
     out = []
